@@ -4,11 +4,23 @@ NOTES = ("Solver-based checking of the real code. Exit codes: 0 holds within the
          "queries and solver time are in each evidence file. Genuine defects repaired in /repo are listed in "
          "known_findings.json under 'fixed'.")
 ENGINES = [
-    {"name": "zsym", "path": "engine/zsym.py", "serves_properties": ["C07"],
+    {"name": "symnp+shadow", "path": "engine/symnp.py, engine/shadow.py", "serves_properties": ["C04"],
+     "kind_free_text": "the current source of _type_casting/_core/serde is recompiled into shadow modules whose numpy/mmap/open/os globals are shims over z3 bit-vector cells and z3 arrays; the real tensor code then runs on fully symbolic payloads, offsets and file contents"},
+    {"name": "zsym", "path": "engine/zsym.py", "serves_properties": ["C04", "C07"],
      "kind_free_text": "execution of the real functions on z3 Int/Real/String proxies with re-execution DFS over branch decisions; property = SMT query per path"},
 ]
 NOT_APPLICABLE = {}
 CHECKS = {
+    "C04": dict(
+        engine="symnp+shadow (on zsym)", level="other", design_ref="DESIGN.md section 4 / C04",
+        technique="symbolic execution of the real tensor code over z3 bit-vector cells + SMT equivalence with the ONNX packing specification (QF_BV, arrays, LIA)",
+        text=("Every representation (array-backed incl. Fortran order, packed, proto-backed through raw_data and each typed field, memory-mapped external with and without "
+              "copy_file_range, lazy) of every byte-representable element type is executed on symbolic payload bits, symbolic file content, symbolic offset and symbolic destination "
+              "position; z3 proves numpy()/tobytes()/tofile() equal to the ONNX packing specification for ALL values, for every element count up to the bound. nbytes and the external "
+              "read count are proved for an unbounded symbolic element count. Element-type tables are checked as ground facts."),
+        note=("Trusted: z3; the numpy shim (validated against real numpy at start-up); ndarray.tofile/mmap/copy_file_range contracts as listed in the evidence assumptions; "
+              "framework adapters, ir.tensor() casting and string tensors are not decided."),
+    ),
     "C07": dict(
         engine="zsym", level="other", design_ref="DESIGN.md section 4 / C07",
         technique="symbolic execution of the real layout/shard/threshold/restore functions on z3 proxies + SMT (bounded in tensor count, unbounded in sizes)",
